@@ -23,7 +23,8 @@ func init() {
 			"compile call graph carries a nil program. Exhaustiveness of operations by sibling agreement of four tables: the Operation constants, the Operations slice (what Unpack accepts), the operations validation lets " +
 			"through, and the operations the lowering chain handles (accepted is a subset of handled; unknown ones are reported, not dropped). For policies free of the listed defects the patcher's two error sites are " +
 			"unreachable at label level (no jump has both targets on the next instruction; no label is used after it was bound). Panic sites: the compiler's unproven bounds checks, type assertions and nil dereferences " +
-			"reachable from Policy.Assemble are enumerated; those inside the patcher's index bookkeeping are assumed under C06, the rest must be guarded.",
+			"reachable from Policy.Assemble are enumerated; those inside the patcher's index bookkeeping are assumed under C06, the rest must be guarded (in every module package the compile path reaches; plus value-dependent panics: make, Repeat, Grow, Must*, division). " +
+			"The converse clause (policies free of the listed defects are accepted) is decided as a closed-world statement, E3.accept-closed: every place where the compile call graph originates an error or records a problem is, on the nearest branch of every way into it, the rejecting side of one of the listed defect classes.",
 		Trusted:     []string{"go/ssa, dominators", "the gc prove pass (bounds-check listing)", "E1 automaton (shared with C01-C05)"},
 		Assumptions: []string{"absence of panics inside the patcher's slice arithmetic and type assertions depends on C06's invariants (listed, not proved)", "the 4096-instruction limit is the kernel's; not analysed"},
 		Run:         runC07,
